@@ -372,7 +372,144 @@ def _run(subj, sim, ops, r):
     r.classes = (subj,) + tuple(sorted(flags)) + (('nontrivial',) if nontrivial else ())
 
 
+def _sessions_case():
+    pref = st.lists(st.sampled_from(ALPHABET[:3]), min_size=0, max_size=3)
+    how = st.sampled_from(['attach', 'route', 'stack', 'stack'])
+    att = st.fixed_dictionaries({'op': st.just('attach'), 'p': pref, 'how': how})
+    det = st.fixed_dictionaries({'op': st.just('detach'), 'k': st.integers(0, 5)})
+    return st.fixed_dictionaries({
+        'subject': st.sampled_from(['v2', 'v2', 'legacy']),
+        'pre': st.lists(att, min_size=1, max_size=4),
+        'mid': st.lists(st.one_of(att, det), max_size=3),
+        'names': st.lists(st.lists(st.sampled_from(ALPHABET[:3]), max_size=4), min_size=2, max_size=6),
+        'mode': st.sampled_from(['await', 'task']),
+        'connections': st.sampled_from([2, 2, 3])})
+
+
+def run_sessions(case):
+    """Handlers attached BEFORE the application is connected (attach_handler, the route() decorator, route() decorators stacked on
+    one function), and an application object that is run again - each time in a fresh event loop - with attach / detach in
+    between: on every connection each Interest reaches the handler of the longest attached prefix."""
+    subj = case['subject']
+    r = Result()
+    sim = AppSim(subj)
+    model = {}
+    order = []
+    calls = []
+    gen = [0]
+    flags = set()
+    stacked = {}
+
+    def make(hid):
+        if subj == 'v2':
+            def h(name, app_param, reply, context):
+                calls.append((hid, [bytes(c) for c in name]))
+        else:
+            def h(name, param, app_param):
+                calls.append((hid, [bytes(c) for c in name]))
+        return h
+
+    def attach(op):
+        key = tuple(_comps(op['p']))
+        how = op['how'] if subj == 'v2' else 'attach'
+        gen[0] += 1
+        hid = gen[0]
+        try:
+            if how == 'attach':
+                if subj == 'v2':
+                    sim.vl.call(sim.app.attach_handler, list(key), make(hid))
+                else:
+                    sim.vl.call(sim.app.set_interest_filter, list(key), make(hid))
+            elif how == 'route':
+                sim.vl.call(lambda: sim.app.route(list(key))(make(hid)))
+            else:
+                # @app.route(p2) @app.route(p1) def f(...): one function on several prefixes
+                if 'fn' not in stacked:
+                    stacked['fn'] = make(hid)
+                    stacked['hid'] = hid
+                hid = stacked['hid']
+                flags.add('stacked-route' if 'used' in stacked else 'route')
+                stacked['used'] = True
+                stacked['fn'] = sim.vl.call(lambda: sim.app.route(list(key))(stacked['fn']))
+            raised = None
+        except ValueError as e:
+            raised = e
+        except Exception as e:
+            r.bad(f'C04/{subj}/sessions/attach-raised/{exc_site(e)}', f'{e!r} how={how}')
+            return False
+        if key in model:
+            if raised is None:
+                r.bad(f'C04/{subj}/sessions/duplicate-attach-accepted', f'prefix {[c.hex() for c in key]} how={how}')
+                return False
+        elif raised is not None:
+            r.bad(f'C04/{subj}/sessions/attach-refused', f'{raised!r} how={how}')
+            return False
+        else:
+            model[key] = hid
+            order.append(key)
+        return True
+
+    try:
+        for op in case['pre']:
+            if not attach(op):
+                return r
+        for conn in range(case['connections']):
+            sim.start()
+            for n in case['names']:
+                name = _comps(n)
+                want = next((model[tuple(name[:k])] for k in range(len(name), -1, -1) if tuple(name[:k]) in model), None)
+                before = len(calls)
+                sim.deliver(net.interest_wire(name, lifetime=4000, nonce=7), case['mode'])
+                if sim.receive_errors:
+                    r.bad(f'C04/{subj}/sessions/receive-raised/connection-{min(conn, 1)}/{sim.receive_errors[0].split(":")[0]}', sim.receive_errors[0])
+                    return r
+                got = calls[before:]
+                if [g[0] for g in got] != ([] if want is None else [want]) or (got and got[0][1] != name):
+                    kind = 'delivered-without-match' if want is None else 'not-delivered' if not got else 'wrong-handler'
+                    r.bad(f'C04/{subj}/sessions/{kind}/connection-{min(conn, 1)}',
+                          f'name {[c.hex() for c in name]}: handlers {got}, expected {want}; attached {[[c.hex() for c in k] for k in model]} pre={case["pre"]}')
+                    return r
+            errs = sim.vl.collect_errors()
+            if errs:
+                r.bad(f'C04/{subj}/sessions/unhandled-loop-error/{errs[0]["type"]}', str(errs[:2]))
+                return r
+            err = sim.finish()
+            if err:
+                r.bad(f'C04/{subj}/sessions/main-loop/connection-{min(conn, 1)}', err)
+                return r
+            if subj == 'legacy':
+                # documented: "All callbacks registered by set_interest_filter are removed when disconnected from the forwarder"
+                model.clear()
+            if conn + 1 < case['connections']:
+                sim.renew_loop()
+                if conn == 0:
+                    for op in case['mid']:
+                        if op['op'] == 'attach':
+                            if not attach(op):
+                                return r
+                        elif order:
+                            key = order[op['k'] % len(order)]
+                            if key in model:
+                                try:
+                                    if subj == 'v2':
+                                        sim.vl.call(sim.app.detach_handler, list(key))
+                                    else:
+                                        sim.vl.call(sim.app.unset_interest_filter, list(key))
+                                except Exception as e:
+                                    r.bad(f'C04/{subj}/sessions/detach-raised/{exc_site(e)}', repr(e))
+                                    return r
+                                del model[key]
+                                flags.add('detach-while-disconnected')
+    finally:
+        sim.close()
+    r.key = (subj, len(model), tuple(sorted(flags)), case['connections'], len(case['names']), tuple(len(n) for n in case['names'][:3]))
+    r.classes = (subj, 'sessions') + tuple(sorted(flags))
+    return r
+
+
 SUBCHECKS = {
+    'sessions': SubCheck(run_sessions, strategy=lambda tier: _sessions_case(), examples={'quick': 400, 'thorough': 8000},
+                         note='handlers attached before the first connection; the application run again in fresh event loops'),
     'v2': SubCheck(run_case, strategy=lambda tier: _case('v2'), examples={'quick': 2000, 'thorough': 60000}),
     'legacy': SubCheck(run_case, strategy=lambda tier: _case('legacy'), examples={'quick': 1500, 'thorough': 40000}),
     'dispatcher': SubCheck(run_case, strategy=lambda tier: _case('dispatcher'), examples={'quick': 1500, 'thorough': 40000}),
